@@ -481,6 +481,11 @@ pub fn set_unordered_sorts(m: HashMap<String, usize>) {
     UNORDERED.with(|u| *u.borrow_mut() = m);
 }
 
+/// Is this container sort registered as unordered (Set / MultiSet / Map)?
+pub fn is_unordered(sort: &str) -> bool {
+    UNORDERED.with(|u| u.borrow().contains_key(sort))
+}
+
 /// Detect unordered container sorts from the e-graph's declared sorts.
 pub fn register_unordered_from(eg: &EGraph) {
     use egglog::sort::{MapContainer, MultiSetContainer, SetContainer};
